@@ -32,11 +32,12 @@ def word(rnd, cap=True):
     return w.capitalize() if cap else w
 
 
-def ident(rnd, used):
-    """alphabetic words joined by '_' or camel-cased (the sub-language on which the identifier mapping is unambiguous)"""
+def ident(rnd, used, multiword=False):
+    """alphabetic words joined by '_' or camel-cased (the sub-language on which the identifier mapping is unambiguous);
+    multiword: at least two words joined by '_' (name, variant and constant all differ from the identifier)"""
     for _ in range(100):
-        n = rnd.randint(1, 3)
-        style = rnd.choice(['snake', 'camel', 'snake'])
+        n = rnd.randint(2, 3) if multiword else rnd.randint(1, 3)
+        style = 'snake' if multiword else rnd.choice(['snake', 'camel', 'snake'])
         ws = [word(rnd) for _ in range(n)]
         if style == 'snake':
             # words after the first may be lower case (as in Meter_per_Second)
@@ -94,7 +95,8 @@ def gen_type(rnd, name, used_ids, kind, derive=None, n_units=None, allow_ties=Tr
                 u['doc'] = '%s·%s' % (lit, ru['sym'])
             units.append(u)
     else:
-        names = [ident(rnd, used_ids) for _ in range(n)]
+        # the only unit of a single-unit type always has a multi-word identifier (its code path is a separate one)
+        names = [ident(rnd, used_ids, multiword=(kind == 'single')) for _ in range(n)]
         if n >= 2:
             # identifiers that share a prefix, once continued with '_' and once in camel case: their NAMES
             # ("Pre Zed" < "PreAlpha", space sorts first) and their variant identifiers ("PreAlpha" < "PreZed")
